@@ -307,7 +307,12 @@ def run_replay_file(mod, path: Path, stats: Stats, known):
 
 
 def write_evidence(mod, tier, seed, stats: Stats, wall, n_viol, extra=None):
-    EVIDENCE.mkdir(exist_ok=True)
+    # evidence describes runs against /repo only: a run against a scratch copy (GNPY_SRC, mutation / seeded self-tests)
+    # writes next to its replay files instead of overwriting the committed evidence
+    evdir = EVIDENCE
+    if os.environ.get('GNPY_SRC'):
+        evdir = Path(os.environ.get('VERIF_FOUND_DIR') or '/tmp/verif-scratch-evidence')
+    evdir.mkdir(parents=True, exist_ok=True)
     samples = sorted(stats.samples, key=lambda s: s[0])
     chosen = []
     if samples:
@@ -336,7 +341,7 @@ def write_evidence(mod, tier, seed, stats: Stats, wall, n_viol, extra=None):
         'coverage': cov, 'assumptions': list(getattr(mod, 'ASSUMPTIONS', [])), 'wall_s': round(wall, 2),
         'violations': n_viol,
     }
-    (EVIDENCE / f'{mod.PROPERTY}.json').write_text(json.dumps(ev, indent=1, default=str))
+    (evdir / f'{mod.PROPERTY}.json').write_text(json.dumps(ev, indent=1, default=str))
 
 
 def main(argv=None):
